@@ -332,6 +332,7 @@ func (fx *FnExec) execCallArgs(in ssa.Instruction, c *ssa.CallCommon, res ssa.Va
 	if fx.streamCall(in, c, args, setRes) {
 		return
 	}
+	fx.atCallAsserts(in, c, args)
 	var rtype types.Type
 	if res != nil {
 		rtype = res.Type()
@@ -409,7 +410,7 @@ func (fx *FnExec) callHavoc(in ssa.Instruction, c *ssa.CallCommon, args []Val, r
 				// declared pool invariant (checked at every Put site and for New under C01)
 				if pc := fx.W.Contracts.ByName["pool "+pi.global.Name()]; pc != nil {
 					xv := Val{T: pi.elem, S: fx.unbox(pi.elem, "(i.pay "+r.S+")")}
-					env := &evalEnv{fx: fx, heap: fx.cur.heap, oldHeap: fx.cur.heap, names: map[string]Val{"x": xv}, gh: fx.cur.gh, oldGh: fx.cur.gh}
+					env := &evalEnv{fx: fx, heap: fx.cur.heap, oldHeap: fx.cur.heap, names: map[string]Val{"x": xv}, gh: fx.cur.gh, oldGh: fx.cur.gh, adopt: true}
 					for _, inv := range pc.Requires {
 						if t, err := fx.evalC(inv.ast, env); err == nil {
 							fx.assume(t.S)
@@ -916,4 +917,49 @@ func streamRef(v cval) string {
 		return "(i.pay " + v.S + ")"
 	}
 	return v.S
+}
+
+// atCallAsserts: assertions the contract of the function under verification attaches to calls of
+// a given callee (arguments a0, a1, ... with the receiver first).
+func (fx *FnExec) atCallAsserts(in ssa.Instruction, c *ssa.CallCommon, args []Val) {
+	if fx.C == nil || len(fx.C.AtCall) == 0 {
+		return
+	}
+	name := ""
+	if f := c.StaticCallee(); f != nil {
+		name = calleeName(f)
+	} else if c.IsInvoke() {
+		name = namedTypeName(c.Value.Type()) + "." + c.Method.Name()
+	}
+	for k, ac := range fx.C.AtCall {
+		if ac.Callee != name {
+			continue
+		}
+		env := &evalEnv{fx: fx, heap: fx.cur.heap, oldHeap: fx.heap0, bound: map[string]cval{}}
+		for i, a := range args {
+			if a.S == "" {
+				a.S = fx.term(a)
+			}
+			env.bound[fmt.Sprintf("a%d", i)] = fx.cvalOf(a)
+		}
+		// loop variables of the innermost enclosing loop are visible
+		if b := in.Block(); b != nil {
+			var inner *loopInfo
+			for _, li := range fx.loopHead {
+				if li.body[b.Index] && (inner == nil || len(li.body) < len(inner.body)) {
+					inner = li
+				}
+			}
+			if inner != nil {
+				env.loop = inner.head
+			}
+		}
+		t, err := fx.evalContract(ac.Expr, env)
+		if err != nil {
+			fx.outside = append(fx.outside, fmt.Sprintf("atcall %s: %v", ac.Callee, err))
+			continue
+		}
+		o := fx.oblige("atcall", t, in, fmt.Sprintf("at the call of %s (#%d): %s", ac.Callee, k+1, ac.Expr.Text))
+		o.Props = ac.Expr.Props
+	}
 }
